@@ -24,11 +24,15 @@ FORBIDDEN = re.compile(r"\b(Admitted|admit|Axiom|Axioms|Parameter|Parameters|Con
 
 
 class Stream:
-    def __init__(self, name, suite, checker, cases, note="", nontrivial=None):
+    def __init__(self, name, suite, checker, cases, note="", nontrivial=None, project=None):
         self.name, self.suite, self.checker = name, suite, checker
         self.cases = cases          # list of sx strings (without the suite prefix)
         self.note = note
         self.nontrivial = nontrivial  # optional predicate on (case, result) strings
+        # optional str -> str applied to the IMPLEMENTATION's result before it is diffed against the model's
+        # (the checker still sees the full result).  For suites whose results contain values that the model
+        # cannot predict (unseeded RNG draws): the projection keeps the deterministic part.  Default: identity.
+        self.project = project or (lambda r: r)
 
 
 def die(msg, code=2):
@@ -196,7 +200,7 @@ def _limits():
     resource.setrlimit(resource.RLIMIT_CORE, (0, 0))
 
 
-def run_impl(lines, timeout=900):
+def run_impl(lines, timeout=240):
     """lines: '<suite> <sx>'; routed to the debug or release binary by the case's profile field."""
     idx = {0: [], 1: []}
     for i, l in enumerate(lines):
@@ -213,15 +217,19 @@ def run_impl(lines, timeout=900):
 
 
 def _resolve_aborts(binary, lines, res, timeout):
+    """cases behind a worker that died (abort, OOM, hang) are re-run in fresh workers, a few rounds, short timeout;
+    what is still unattributed afterwards is reported as (9 -100)"""
     pending = [i for i, r in enumerate(res) if r == "(8)"]
     rounds = 0
-    while pending and rounds < 50:
+    while pending and rounds < 8:
         rounds += 1
         sub = [lines[i] for i in pending]
-        got = _run_sharded(binary, sub, timeout)
+        got = _run_sharded(binary, sub, min(timeout, 60))
         for i, g in zip(pending, got):
             res[i] = g
         pending = [i for i, r in enumerate(res) if r == "(8)"]
+    for i in pending:
+        res[i] = "(9 -100)"
     return res
 
 
@@ -380,7 +388,7 @@ def evaluate_stream(ctx, st):
             die("malformed case reached a suite (generator bug): %s %s" % (st.suite, c[:300]))
         if v == "0":
             fails.append((c, i, m))
-        elif i != m:
+        elif st.project(i) != m:
             disag.append((c, i, m, v))
         if v != "2":
             ctx.nontrivial.add(hashlib.sha1((st.suite + c).encode()).digest()[:8])
@@ -419,10 +427,10 @@ def evaluate_stream(ctx, st):
     if disag:
         c, i, m, v = disag[0]
 
-        def still2(cand, suite=st.suite):
+        def still2(cand, suite=st.suite, proj=st.project):
             o = run_impl(["%s %s" % (suite, cand)])[0]
             mo = resolve_needs(["%s %s" % (suite, cand)])[0][0]
-            return o != BAD and o != mo
+            return o != BAD and proj(o) != mo
         small = shrink(c, still2)
         ctx.pending_nofail = getattr(ctx, "pending_nofail", [])
         ctx.pending_nofail.append({
